@@ -208,6 +208,6 @@ def strat_directed(tier):
 
 
 PARTS = [
-    Part("orders", run, strategy, {"quick": 256, "thorough": 4000}, rule=RULE),
-    Part("fork-join-orders", run, strat_directed, {"quick": 160, "thorough": 2500}, rule="directed fork-join definitions (branches that arrive conditionally or never) under all completion orders"),
+    Part("orders", run, strategy, {"quick": 256, "thorough": 2560}, rule=RULE),
+    Part("fork-join-orders", run, strat_directed, {"quick": 160, "thorough": 1600}, rule="directed fork-join definitions (branches that arrive conditionally or never) under all completion orders"),
 ]
